@@ -3,9 +3,11 @@
 use crate::engine::Property;
 
 pub mod c01;
+pub mod c02;
 pub mod c03;
 pub mod c04;
 pub mod c05;
+pub mod c06;
 pub mod c07;
 pub mod c08;
 pub mod c09;
@@ -18,15 +20,17 @@ pub mod c15;
 pub mod c16;
 
 pub fn ids() -> Vec<&'static str> {
-    vec!["C01", "C03", "C04", "C05", "C07", "C08", "C09", "C10", "C11", "C12", "C13", "C14", "C15", "C16"]
+    vec!["C01", "C02", "C03", "C04", "C05", "C06", "C07", "C08", "C09", "C10", "C11", "C12", "C13", "C14", "C15", "C16"]
 }
 
 pub fn property(id: &str) -> Option<Property> {
     Some(match id {
         "C01" => c01::property(),
+        "C02" => c02::property(),
         "C03" => c03::property(),
         "C04" => c04::property(),
         "C05" => c05::property(),
+        "C06" => c06::property(),
         "C07" => c07::property(),
         "C08" => c08::property(),
         "C09" => c09::property(),
